@@ -1194,6 +1194,9 @@ func (ex *Exec) convert(st *State, fr *Frame, x *ssa.Convert) {
 		case SliceV:
 			et := fu.(*types.Slice).Elem().Underlying().(*types.Basic)
 			if et.Kind() == types.Uint8 {
+				if ex.hbOn && fv.len > 0 {
+					ex.hbAccess(st, fr, fv.arr, false)
+				}
 				ex.set(fr, x, st.sliceToStr(fv))
 				fr.ip++
 				return
